@@ -37,7 +37,7 @@ def failure_key(text, vm_obs, cls):
 
 def run(ctx):
     jobs = ctx.pick([("core", 3), ("lambda", 4), ("partial", 5), ("pairs", 4)],
-                    [("core", 4), ("lambda", 5), ("partial", 6), ("pairs", 5), ("callonly", 6)])
+                    [("core", 4), ("lambda", 5), ("partial", 5), ("pairs", 5), ("callonly", 6)])
     enum = L.enumerate_programs(ctx, jobs, "case")
     binary = ctx.go_build("vh-lang")
 
@@ -66,7 +66,7 @@ def run(ctx):
         ctx.distinct_cases.add(L.show(c["p"]))
 
     # binding B: named + random programs above the exhaustive bound; VM first, TLC judges the log
-    progs = L.named_programs() + L.random_programs(ctx.seed, ctx.pick(1500, 15000), maxdepth=ctx.pick(4, 5),
+    progs = L.named_programs() + L.random_programs(ctx.seed, ctx.pick(1500, 8000), maxdepth=ctx.pick(4, 5),
                                                     maxsize=ctx.pick(18, 26))
     ocases = [{"id": i, "p": p, "simplify": False} for i, p in enumerate(progs)]
     ovs = ctx.run_cases(binary, "observe", ocases, name="observe", timeout_ms=30000)
